@@ -204,3 +204,45 @@ func VxC12_Twins() {
 		vx.Assertf("C12.no_nil_statement", st != nil && !vx.IsNilPtr(st), "returned statement %d is nil", k)
 	}
 }
+
+// triples: a good statement, then a statement that is a complete prefix plus stray tokens, then a
+// statement that fails at its first token - recovery bookkeeping carried from one malformed
+// statement to the next must not cost an earlier good statement.
+var vxStrays = []string{"x x", "1", ") )", ", a", "x", ""}
+var vxBadStarts = []string{"FROM orders WHERE id = 1", ") SELECT", "x y z", "1 + 2", "WHERE a", "SELECT FROM"}
+
+func VxC12_Triples() {
+	semi := token.Token{Type: models.TokenTypeSemicolon, Literal: ";"}
+	good := VxFixed(vxGoodStmts[vx.Choice(len(vxGoodStmts))])
+	second := append(append([]token.Token{}, VxFixed(vxGoodStmts[vx.Choice(len(vxGoodStmts))])...), VxFixed(vxStrays[vx.Choice(len(vxStrays))])...)
+	third := VxFixed(vxBadStarts[vx.Choice(len(vxBadStarts))])
+	order := vx.Choice(3) // where the good statement stands
+	parts := [][]token.Token{good, second, third}
+	if order == 1 {
+		parts = [][]token.Token{second, good, third}
+	} else if order == 2 {
+		parts = [][]token.Token{second, third, good}
+	}
+	var toks []token.Token
+	wantStmts, wantErrs := 0, 0
+	for _, p := range parts {
+		for j := 1; j < len(p); j++ {
+			vx.Assume(!vxIsStart(p[j]))
+		}
+		alone := append(append([]token.Token{}, p...), semi, VxEOF)
+		tr, err := NewParser().Parse(alone)
+		if err != nil {
+			wantErrs++
+		} else {
+			vx.Assume(len(tr.Statements) == 1)
+			wantStmts++
+		}
+		toks = append(toks, p...)
+		toks = append(toks, semi)
+	}
+	toks = append(toks, VxEOF)
+	VxNoteToks(toks)
+	stmts, errs := NewParser().ParseWithRecovery(toks)
+	vx.Assertf("C12.one_error_per_malformed", len(errs) == wantErrs, "%d malformed statements but %d errors", wantErrs, len(errs))
+	vx.Assertf("C12.exactly_the_good", len(stmts) == wantStmts, "%d well-formed statements, %d statements returned", wantStmts, len(stmts))
+}
